@@ -861,7 +861,7 @@ def main():
     harness.idbdump(brel)
     _CTX["_exe"] = exe
     root = ck.scratch("fam")
-    fams = lib_c13.FAMILIES if thorough else lib_c13.FAMILIES[:8]
+    fams = lib_c13.FAMILIES if thorough else lib_c13.FAMILIES[:9]
     if ck.only:
         fams = [f for f in lib_c13.FAMILIES if f[0] in ck.only]
     k = 4 if thorough else 3
